@@ -116,8 +116,8 @@ def scBlocks (g : G) : M (Array Rat × Array Nat) := do
       bw := bw.setIfInBounds r (maxRat (bw.getD r 0) w)
   pure (bw, s.roots)
 
-/-- initial coordinates (left to right, one block width per node) and `blockmax` -/
-def scInit (ns : Rat) (g : G) (bw : Array Rat) (roots : Array Nat) : PBSt := Id.run do
+/-- initial coordinates: left to right, one block width per node -/
+def scInitX (ns : Rat) (g : G) (bw : Array Rat) (roots : Array Nat) : Array Rat := Id.run do
   let n := g.nodes.size
   let root := fun k => roots.getD k k
   let mut xc : Array Rat := Array.replicate n 0
@@ -125,12 +125,19 @@ def scInit (ns : Rat) (g : G) (bw : Array Rat) (roots : Array Nat) : PBSt := Id.
     let xs := Phase4Simple.placeFrom 0 ns (layer.nodes.map fun k => bw.getD (root k) 0)
     for (k, x) in layer.nodes.zip xs do
       xc := xc.setIfInBounds k x
-  -- `for n, x := range xcoord { blockmax[roots[n]] = max(…) }` : order independent (FoldPermAndRank.blockmax_order_irrelevant)
-  let mut bm : Array Rat := Array.replicate n 0
-  for k in g.nodeIds do
-    if g.layers.toList.any (·.nodes.contains k) then
-      bm := bm.setIfInBounds (root k) (maxRat (bm.getD (root k) 0) (xc.getD k 0))
-  pure { xcoord := xc, blockmax := bm }
+  pure xc
+
+/-- one iteration of `for n, x := range xcoord { blockmax[roots[n]] = max(blockmax[roots[n]], x) }` -/
+def bmStep (roots : Array Nat) (xc : Array Rat) (bm : Array Rat) (k : Nat) : Array Rat :=
+  bm.setIfInBounds (roots.getD k k) (maxRat (bm.getD (roots.getD k k) 0) (xc.getD k 0))
+
+/-- the keys of the Go map `xcoord`: the nodes that sit in a layer list (here in `g.Nodes` order; Go iterates them in
+    map order, and the result does not depend on the order: C07_blockmax_order_irrelevant) -/
+def scKeys (g : G) : List Nat := g.nodeIds.filter fun k => g.layers.toList.any (·.nodes.contains k)
+
+def scInit (ns : Rat) (g : G) (bw : Array Rat) (roots : Array Nat) : PBSt :=
+  let xc := scInitX ns g bw roots
+  { xcoord := xc, blockmax := (scKeys g).foldl (bmStep roots xc) (Array.replicate g.nodes.size 0) }
 
 def scLmax (g : G) : Nat := g.layers.toList.foldl (fun m l => max m l.nodes.length) 0
 
